@@ -13,6 +13,9 @@ type Part struct {
 	Name    string
 	Race    bool // needs the -race build (E2 with tsan as per-schedule oracle)
 	Workers int  // 0 = all cores
+	// Verbose: run the repository code at trace log level with stderr discarded, so that the
+	// logging code paths (shared logger state touched from concurrent phases) are really executed.
+	Verbose bool
 	// Budget in seconds for (quick, thorough); 0 = default.
 	QuickS, ThoroughS int
 	Run               func(c *core.Ctx)
